@@ -11,6 +11,7 @@ mod admit;
 mod derive;
 mod hostloop;
 mod topic;
+mod c12;
 
 use common::*;
 use std::path::{Path, PathBuf};
@@ -33,6 +34,7 @@ fn replay_file(comp: &str, path: &Path, out: &mut Out) {
         "derive" => derive::replay(&desc, &ops, out),
         "hostloop" => hostloop::replay(&desc, &ops, out),
         "topic" => topic::replay(&desc, &ops, out),
+        "metric" => c12::replay(&desc, &ops, out),
         _ => panic!("unknown component"),
     }
 }
@@ -53,6 +55,7 @@ fn main() {
             Some("DeriveTable") => derive::table_derive(),
             Some("HostLoopTable") => hostloop::table_hostloop(),
             Some("TopicTable") => topic::table_topic(),
+            Some("MetricTable") => c12::table_metric(),
             _ => {
                 eprintln!("unknown table");
                 std::process::exit(2)
@@ -131,6 +134,7 @@ fn main() {
         "derive" => derive::run(&args, &mut out),
         "hostloop" => hostloop::run(&args, &mut out),
         "topic" => topic::run(&args, &mut out),
+        "metric" => c12::run(&args, &mut out),
         _ => {
             eprintln!("unknown component {}", comp);
             std::process::exit(2)
